@@ -10,41 +10,41 @@ import (
 // Field accessors for the unexported vesting pool node (decoding is done by the repository's own
 // generated UnmarshalMsg); nothing here re-implements contract logic.
 
-type VerifDest struct {
+type VerifMiscDest struct {
 	ID             string
 	Amount, Vested currency.Coin
 	Last, Move     common.Timestamp
 }
 
-type VerifPool struct {
+type VerifMiscPool struct {
 	ID                  string
 	Balance             currency.Coin
 	StartTime, ExpireAt common.Timestamp
 	ClientID            string
-	Dests               []VerifDest
+	Dests               []VerifMiscDest
 }
 
-// VerifPoolKeyPrefix is the plaintext key prefix of vesting pool nodes.
-func VerifPoolKeyPrefix() string { return poolKey(ADDRESS, "") }
+// VerifMiscPoolKeyPrefix is the plaintext key prefix of vesting pool nodes.
+func VerifMiscPoolKeyPrefix() string { return poolKey(ADDRESS, "") }
 
-// VerifDecodePool decodes a stored vesting pool node.
-func VerifDecodePool(b []byte) (*VerifPool, error) {
+// VerifMiscDecodePool decodes a stored vesting pool node.
+func VerifMiscDecodePool(b []byte) (*VerifMiscPool, error) {
 	vp := newVestingPool()
 	if _, err := vp.UnmarshalMsg(b); err != nil {
 		return nil, err
 	}
-	out := &VerifPool{ID: vp.ID, Balance: vp.Balance, StartTime: vp.StartTime, ExpireAt: vp.ExpireAt, ClientID: vp.ClientID}
+	out := &VerifMiscPool{ID: vp.ID, Balance: vp.Balance, StartTime: vp.StartTime, ExpireAt: vp.ExpireAt, ClientID: vp.ClientID}
 	for _, d := range vp.Destinations {
-		out.Dests = append(out.Dests, VerifDest{ID: d.ID, Amount: d.Amount, Vested: d.Vested, Last: d.Last, Move: d.Move})
+		out.Dests = append(out.Dests, VerifMiscDest{ID: d.ID, Amount: d.Amount, Vested: d.Vested, Last: d.Last, Move: d.Move})
 	}
 	return out, nil
 }
 
-// VerifConfigKey is the plaintext key of the vesting settings node.
-func VerifConfigKey() string { return scConfigKey(ADDRESS) }
+// VerifMiscConfigKey is the plaintext key of the vesting settings node.
+func VerifMiscConfigKey() string { return scConfigKey(ADDRESS) }
 
-// VerifValidateConfig decodes a stored settings node and runs the contract's own validate on it.
-func VerifValidateConfig(b []byte) error {
+// VerifMiscValidateConfig decodes a stored settings node and runs the contract's own validate on it.
+func VerifMiscValidateConfig(b []byte) error {
 	c := new(config)
 	if _, err := c.UnmarshalMsg(b); err != nil {
 		return err
@@ -52,8 +52,8 @@ func VerifValidateConfig(b []byte) error {
 	return c.validate()
 }
 
-// VerifConfigOwner returns the owner recorded in a stored settings node.
-func VerifConfigOwner(b []byte) (string, error) {
+// VerifMiscConfigOwner returns the owner recorded in a stored settings node.
+func VerifMiscConfigOwner(b []byte) (string, error) {
 	c := new(config)
 	if _, err := c.UnmarshalMsg(b); err != nil {
 		return "", err
@@ -61,10 +61,10 @@ func VerifConfigOwner(b []byte) (string, error) {
 	return c.OwnerId, nil
 }
 
-// VerifUnlock runs the real destination.unlock (not dry) on a destination with the given fields
+// VerifMiscUnlock runs the real destination.unlock (not dry) on a destination with the given fields
 // and returns the destination afterwards and the amount to pay.
-func VerifUnlock(d VerifDest, now, end common.Timestamp) (VerifDest, currency.Coin, error) {
+func VerifMiscUnlock(d VerifMiscDest, now, end common.Timestamp) (VerifMiscDest, currency.Coin, error) {
 	x := &destination{ID: d.ID, Amount: d.Amount, Vested: d.Vested, Last: d.Last, Move: d.Move}
 	amt, err := x.unlock(now, end, false)
-	return VerifDest{ID: x.ID, Amount: x.Amount, Vested: x.Vested, Last: x.Last, Move: x.Move}, amt, err
+	return VerifMiscDest{ID: x.ID, Amount: x.Amount, Vested: x.Vested, Last: x.Last, Move: x.Move}, amt, err
 }
